@@ -56,16 +56,102 @@ def is_ident(zs):
     return z3.InRe(zs, RE_IDENT)
 
 
+# Character-class predicates are uninterpreted functions; the engine adds the lemma instances below
+# (theory_lemmas) for every application that occurs in a query.  This keeps the solver in EUF + basic
+# string theory instead of regular expressions over 25-character unions (measured: minutes -> ms).
+P_ALL_WS = z3.Function('py.all_ws', z3.StringSort(), z3.BoolSort())       # every char is str.strip() whitespace
+P_WS_CHAR = z3.Function('py.ws_char', z3.StringSort(), z3.BoolSort())     # 1-char string that is whitespace
+P_NO_BREAK = z3.Function('py.no_break', z3.StringSort(), z3.BoolSort())   # no str.splitlines() boundary inside
+P_BREAK_CHAR = z3.Function('py.break_char', z3.StringSort(), z3.BoolSort())
+
+
 def no_break(zs):
     """zs contains no line boundary character."""
-    _init_re()
-    return z3.Not(z3.InRe(zs, z3.Concat(z3.Full(z3.ReSort(z3.StringSort())), RE_BREAK,
-                                          z3.Full(z3.ReSort(z3.StringSort())))))
+    if z3.is_string_value(zs):
+        return z3.BoolVal(not any(c in LINE_BREAKS for c in _unescape(zs.as_string())))
+    return P_NO_BREAK(zs)
 
 
 def all_ws(zs):
-    _init_re()
-    return z3.InRe(zs, z3.Star(RE_WS))
+    if z3.is_string_value(zs):
+        return z3.BoolVal(_unescape(zs.as_string()).strip() == '')
+    return P_ALL_WS(zs)
+
+
+def ws_char(zs):
+    if z3.is_string_value(zs):
+        v = _unescape(zs.as_string())
+        return z3.BoolVal(len(v) == 1 and v in WHITESPACE)
+    return P_WS_CHAR(zs)
+
+
+def first_char(zs):
+    return z3.SubString(zs, 0, 1)
+
+
+def last_char(zs):
+    return z3.SubString(zs, z3.Length(zs) - 1, 1)
+
+
+def theory_lemmas(exprs, done):
+    """Lemma instances for the character-class predicates occurring in `exprs` (list of z3 Bool).
+    `done` is a set of term ids already treated.  Returns new lemmas (sound facts about CPython strings)."""
+    out = []
+    work = list(exprs)
+    seen = set()
+    apps = []
+    while work:
+        e = work.pop()
+        if e.get_id() in seen:
+            continue
+        seen.add(e.get_id())
+        if z3.is_app(e):
+            d = e.decl()
+            if d.kind() == z3.Z3_OP_UNINTERPRETED and d.name() in ('py.all_ws', 'py.ws_char', 'py.no_break',
+                                                                   'py.break_char'):
+                apps.append(e)
+            work.extend(e.children())
+        elif z3.is_quantifier(e):
+            work.append(e.body())
+    for a in apps:
+        if a.get_id() in done:
+            continue
+        done.add(a.get_id())
+        name = a.decl().name()
+        t = a.arg(0)
+        if name in ('py.ws_char', 'py.break_char'):
+            chars = WHITESPACE if name == 'py.ws_char' else LINE_BREAKS
+            if z3.is_string_value(t):
+                v = _unescape(t.as_string())
+                out.append(a == z3.BoolVal(len(v) == 1 and v in chars))
+            else:
+                out.append(a == z3.Or(*[t == zstr(c) for c in chars]))
+            continue
+        pred, charp = (P_ALL_WS, P_WS_CHAR) if name == 'py.all_ws' else (P_NO_BREAK, None)
+        if z3.is_string_value(t):
+            v = _unescape(t.as_string())
+            out.append(a == z3.BoolVal(v.strip() == '' if name == 'py.all_ws'
+                                       else not any(c in LINE_BREAKS for c in v)))
+            continue
+        if z3.is_app(t) and t.decl().kind() == z3.Z3_OP_SEQ_CONCAT:
+            out.append(a == z3.And(*[pred(c) if not z3.is_string_value(c) else
+                                     (all_ws(c) if name == 'py.all_ws' else no_break(c)) for c in t.children()]))
+        if z3.is_app(t) and t.decl().kind() == z3.Z3_OP_ITE:
+            c, x, y = t.children()
+            out.append(a == z3.If(c, pred(x) if not z3.is_string_value(x) else
+                                  (all_ws(x) if name == 'py.all_ws' else no_break(x)),
+                                  pred(y) if not z3.is_string_value(y) else
+                                  (all_ws(y) if name == 'py.all_ws' else no_break(y))))
+        out.append(z3.Implies(z3.Length(t) == 0, a))
+        if name == 'py.all_ws':
+            out.append(z3.Implies(z3.And(a, z3.Length(t) > 0),
+                                  z3.And(P_WS_CHAR(first_char(t)), P_WS_CHAR(last_char(t)))))
+            out.append(z3.Implies(z3.Length(t) == 1, a == P_WS_CHAR(t)))
+        else:
+            out.append(z3.Implies(z3.And(a, z3.Length(t) > 0),
+                                  z3.And(z3.Not(P_BREAK_CHAR(first_char(t))), z3.Not(P_BREAK_CHAR(last_char(t))))))
+            out.append(z3.Implies(z3.Length(t) == 1, a == z3.Not(P_BREAK_CHAR(t))))
+    return out
 
 
 def mkstr(parts):
